@@ -40,11 +40,33 @@ def make_workbook(rng):
           'D5': '=A9+10', 'E6': '=SUM(A1:A12)', 'E1': '=IF(G12="x",1,0)', 'E2': '=COUNTBLANK(A1:A12)', 'E3': '=B20&"|"', 'E4': '=SUM(E7,A9,1)',
           'E5': '=MAX(A7:B9,0)'}
     s2 = {'A1': rng.randrange(10, 20), 'A2': '=A1*S1!A1', 'B1': '=S1!B2+A2', 'B2': 'k', 'C1': '=SUM(S1!A1:A3)+A1', 'C2': '=D5+A7', 'C3': '=SUM(A1:A7)+COUNT(S1!A7:A12)'}
+    # link cells (a formula that is nothing but one reference), chains of them and random formulas over everything before them:
+    # column F on S1 (F1-F4 links, F5-F10 random), column E on T2
+    def spell(a, other=False):
+        import re as _re
+        m = _re.match(r'([A-Z]+)(\d+)', a)
+        k = rng.randrange(5)
+        t = a if k < 2 else f'${m.group(1)}${m.group(2)}' if k == 2 else f'{m.group(1)}${m.group(2)}' if k == 3 else f'${m.group(1)}{m.group(2)}'
+        return (rng.choice(['T2!', "'T2'!"]) if other else rng.choice(['', '', 'S1!'])) + t
+    pool = ['A1', 'A2', 'A3', 'B1', 'B2', 'B3', 'C2', 'D4', 'A4']
+    s1['F1'] = '=' + spell(rng.choice(['B1', 'B2', 'B3']))
+    s1['F2'] = '=' + spell(rng.choice(['A1', 'A2', 'A3']))
+    s1['F3'] = '=' + spell('A1', other=True)
+    s1['F4'] = '=' + spell(rng.choice(['F1', 'F2', 'F3']))
+    pool += ['F1', 'F2', 'F3', 'F4']
+    forms = ['{a}+{b}', 'SUM({a},{b})', 'IF({a}>{b},{a},{b})', '-{a}', '{a}%', 'MAX({a},{b},0)', '{a}&"|"&{b}', 'SUM(F1:F4)', 'IFERROR({a}/{b},0)', '{a}', '({a})',
+             'COUNT(F1:F4,{a})', 'INDEX(F1:F4,2)', 'ROUND({a}/3,2)', 'MIN(F1:F4)+{b}', '{a}={b}']
+    for i in range(5, 11):
+        s1[f'F{i}'] = '=' + rng.choice(forms).format(a=spell(rng.choice(pool)), b=spell(rng.choice(pool)))
+        pool.append(f'F{i}')
+    s2['E1'] = '=S1!' + rng.choice(['F1', 'F4', 'F7'])
+    s2['E2'] = '=E1'
+    s2['E3'] = '=E2+S1!F4'
     return wbspec.spec(wbspec.sheet('S1', s1), wbspec.sheet('T2', s2))
 
 
-TARGETS = {0: ['A1', 'A2', 'A3', 'A4', 'A5', 'B1', 'B2', 'B3', 'C1', 'C2', 'C4', 'D2', 'E7', 'A9', 'G12', 'B20'],
-           1: ['A1', 'A2', 'B1', 'B2', 'C1', 'D5', 'A7']}
+TARGETS = {0: ['A1', 'A2', 'A3', 'A4', 'A5', 'B1', 'B2', 'B3', 'C1', 'C2', 'C4', 'D2', 'E7', 'A9', 'G12', 'B20', 'F1', 'F2', 'F3', 'F4', 'F4', 'F1', 'F6', 'F8'],
+           1: ['A1', 'A2', 'B1', 'B2', 'C1', 'D5', 'A7', 'E1', 'E2']}
 
 
 def make_history(rng):
